@@ -172,6 +172,22 @@ pub fn preps(thorough: bool) -> Vec<Prep> {
             }
         }
     }
+    // individuals with the same encoding but different objective values (a noisy objective, or an
+    // individual re-evaluated under another evaluator) are different molecules
+    for &buffer in &BUF {
+        for &pv in &[0.0, 1.0] {
+            let pop: Vec<TInd> = vec![(7, 1.0), (7, 3.0), (8, 0.5)];
+            let ke = vec![0.5, 2.0, 1.25];
+            for lr in [0.0, 0.5] {
+                v.push(Prep { reaction: 0, pop: pop.clone(), ke: ke.clone(), buffer, reactants: vec![1], products: vec![(100, pv)], lr });
+            }
+            v.push(Prep { reaction: 1, pop: pop.clone(), ke: ke.clone(), buffer, reactants: vec![1], products: vec![(100, pv), (101, 0.0)], lr: 0.0 });
+            for (a, b) in [(1usize, 2usize), (0, 1), (2, 1)] {
+                v.push(Prep { reaction: 3, pop: pop.clone(), ke: ke.clone(), buffer, reactants: vec![a, b], products: vec![(100, pv)], lr: 0.0 });
+                v.push(Prep { reaction: 2, pop: pop.clone(), ke: ke.clone(), buffer, reactants: vec![a, b], products: vec![(100, pv), (101, 0.5)], lr: 0.0 });
+            }
+        }
+    }
     v
 }
 
